@@ -18,7 +18,8 @@ MIN_LEN = 20
 
 
 def sentences_pool(rnd):
-    words = ["alpha", "beta", "gamma", "delta", "epsilon", "zeta", "eta", "theta", "iota", "kappa", "lambda", "mu"]
+    words = ["alpha", "beta", "gamma", "delta", "epsilon", "zeta", "eta", "theta", "iota", "kappa", "lambda", "mu", "no",
+             "incomprehensibilities"]
     out = []
     for n in (1, 2, 3, 5, 8, 12):
         ws = [rnd.choice(words) for _ in range(n)]
@@ -128,7 +129,7 @@ def check_heuristic(tier, viol):
                              "got": heuristic_end_of_sentence(w), "want": documented_sentence_end(w)})
                 if len(viol) > 20:
                     return n
-    for w in ("JavaScript.", "GitHub!", "iPhone?", "(PyTorch.)", "NASA.", "e.g.", "end.\"", "end\".", "Ok.", "x.", "3.", "naïve.", "word. "):
+    for w in ("no.", "No.", "etc.", "vs.", "fig.", "ed.", "est.", "so.", "go.", "is.", "am.", "pm.", "al.", "cf.", "JavaScript.", "GitHub!", "iPhone?", "(PyTorch.)", "NASA.", "e.g.", "end.\"", "end\".", "Ok.", "x.", "3.", "naïve.", "word. "):
         n += 1
         if heuristic_end_of_sentence(w) != documented_sentence_end(w):
             viol.append({"clause": "sentence_end_heuristic_as_documented", "input": {"word": w},
